@@ -1,7 +1,7 @@
 (* Extract.v — extraction of the executable models (ExtrOcamlBasic only; Z, N, positive and
    nat stay Coq's own inductive datatypes; no Extract Constant). *)
 From Coq Require Extraction ExtrOcamlBasic.
-From CgreenVerif Require Import Defs Runner Lemmas_Props Mocks.
+From CgreenVerif Require Import Defs Runner Lemmas_Props Mocks CStr Lemmas_Constraints Printf.
 From CgreenVerif.Gen Require Import Facts.
 
 Extraction "../ocaml/model.ml"
@@ -10,5 +10,17 @@ Extraction "../ocaml/model.ml"
   Lemmas_Props.ok_treeb
   BinInt.Z.add BinInt.Z.mul BinInt.Z.div BinInt.Z.modulo BinInt.Z.opp BinInt.Z.eqb BinInt.Z.ltb
   Mocks.mrun Mocks.ms_init Facts.unlimited_ttl
+  Facts.compare_want_value_src Facts.compare_do_not_want_value_src Facts.compare_want_greater_value_src
+  Facts.compare_want_lesser_value_src Facts.is_null_src Facts.is_non_null_src Facts.is_true_src Facts.is_false_src
+  Facts.compare_want_string_src Facts.compare_do_not_want_string_src Facts.compare_want_substring_src
+  Facts.compare_do_not_want_substring_src Facts.compare_want_beginning_of_string_src
+  Facts.compare_do_not_want_beginning_of_string_src Facts.compare_want_end_of_string_src
+  Facts.compare_do_not_want_end_of_string_src Facts.assert_equal_src Facts.assert_not_equal_src
+  Facts.assert_string_equal_src Facts.assert_string_not_equal_src Facts.legacy_with_message
+  Lemmas_Constraints.want_contents_m Lemmas_Constraints.do_not_want_contents_m
+  Printf.shown Printf.printf_m Printf.double_percent Printf.dec
+  Facts.fmt_constraint_as_string_format Facts.fmt_expected_value_string_format Facts.fmt_actual_value_string_format
+  Facts.constraint_formats Facts.fmt_assert_equal_ Facts.fmt_assert_not_equal_ Facts.fmt_assert_string_equal_
+  Facts.fmt_assert_string_not_equal_
   Facts.verdict_suite Facts.verdict_single Facts.rk_text Facts.rk_cute Facts.rk_xml
   Facts.rk_libxml Facts.rk_cdash Facts.msg_codes.
